@@ -22,6 +22,7 @@ CONSTANTS K,          \* lattice bound of the first arc and of the query points
           Stages,     \* subset of {"T", "P"}
           FirstCanon, \* TRUE: first arcs only up to endpoint swap (a < b)
           PairCanon,  \* TRUE: pairs only up to endpoint swaps and arc swap (needs KP = K)
+          PairStride, \* 1: every first arc enters stage "P"; n > 1: a fixed pseudo-random 1/n of them
           EmitArcs, EmitClasses, EmitPairs, WithRot24
 
 ASSUME GeneratorsGenerateRot24
@@ -48,6 +49,7 @@ Next == \/ /\ st = "V"
                  /\ st' = "T" /\ p' \in Points /\ UNCHANGED <<a, b, c, d>>
               \/ /\ "P" \in Stages
                  /\ PairCanon => CanonArc(<<a, b>>)
+                 /\ (a[1] + 2 * a[2] + 3 * a[3] + 5 * b[1] + 7 * b[2] + 11 * b[3]) % PairStride = 0
                  /\ st' = "P" /\ UNCHANGED <<a, b, p>>
                  /\ \E f \in SecondArcs(<<a, b>>) : c' = f[1] /\ d' = f[2]
 Spec == Init /\ [][Next]_vars
